@@ -2,7 +2,7 @@
 import re
 
 from .. import core, engb, env, sigma
-from ..treeutil import leaves, has_err, structure
+from ..treeutil import leaves, has_err, structure, parents_ok
 
 PROP = 'C13'
 MOD = 'vp.props.c13'
@@ -51,6 +51,9 @@ def oracle(g, m, text, case, acc):
         return
     if structure(m) != st:
         return acc.fail(('tree-modified',), case)
+    pr = parents_ok(m)
+    if pr:
+        return acc.fail(('tree-modified', 'parent-links'), case, pr)
     end = m.end_pos
     lines = {}
     for i in iss:
